@@ -473,6 +473,8 @@ var htmlNestingShapes = []string{
 	"<u><ruby><li>", "<center><font size=#>x</center>", "<table><tbody><tt a=#><caption>", "<i></blockquote></br><blockquote>", "<plaintext>", "<textarea><div>", "<xmp></div><div>",
 }
 
+var htmlPairNames = strings.Fields("li dd dt p div span b a nobr ul ol dl table td tr caption button select option optgroup h1 form svg math template object pre blockquote rt ruby x")
+
 func htmlNestingDoc(pre, unit string, reps int) []byte {
 	var sb strings.Builder
 	sb.WriteString(pre)
@@ -492,9 +494,17 @@ func TestHTMLNestingCatalogue(t *testing.T) {
 			u := u
 			emit("file", ".html", fmt.Sprintf("html nesting: file of %q x 20000", u), func() []byte { return htmlNestingDoc("", u, 20000) })
 		}
+		// every pair: B opened inside A, then A's end tag (which the parser obeys, ignores, or answers by
+		// re-opening elements, depending on the two)
+		for _, a := range htmlPairNames {
+			for _, b := range htmlPairNames {
+				u := "<" + a + "><" + b + "></" + a + ">"
+				emit("htmlstring", "", fmt.Sprintf("html nesting: %q x 20000", u), func() []byte { return htmlNestingDoc("", u, 20000) })
+			}
+		}
 	})
 	if !t.Failed() {
-		vr.Exhaustive(fmt.Sprintf("HTML nesting catalogue (%d shapes x 5 contexts + file): %d cases", len(htmlNestingShapes), n))
+		vr.Exhaustive(fmt.Sprintf("HTML nesting catalogue (%d shapes x 5 contexts + file, %d x %d pairs <A><B></A>): %d cases", len(htmlNestingShapes), len(htmlPairNames), len(htmlPairNames), n))
 	}
 }
 
